@@ -54,8 +54,9 @@ Proof.
   intros p Hp. apply rx_eqb_eq. exact (proj1 (forallb_forall _ _) H p Hp).
 Qed.
 
-(* every pattern the dispatch loop tries is one of the regenerated patterns, and 63 of the 74 have a shape *)
-Lemma shape_table_size : length shape_table = 63%nat /\ length rx_table = 74%nat.
+(* every pattern the dispatch loop tries is one of the regenerated patterns, and 63 of the 76 have a shape
+   (RE_IMPORT_ANY and RE_GLOBAL came with the repair of the silent drops) *)
+Lemma shape_table_size : length shape_table = 63%nat /\ length rx_table = 76%nat.
 Proof. split; vm_compute; reflexivity. Qed.
 
 (* ================================================================ building members of the language *)
